@@ -123,10 +123,20 @@ def run(repo: Repo, rep: Report, tier: str) -> None:
     flows = 0
     for rel in ("parser.py",):
         mod = repo.module(rel)
+        # helpers that hand out an Expression object (bound from Expression(...) and returned)
+        producers = {"Expression"}
+        for fi in mod.functions.values():
+            made = {t.id for node in walk_body(fi.node.body) if isinstance(node, ast.Assign) and isinstance(node.value, ast.Call)
+                    and chain(node.value.func) and chain(node.value.func)[-1] == "Expression" for t in node.targets if isinstance(t, ast.Name)}
+            if any(isinstance(r, ast.Return) and isinstance(r.value, ast.Name) and r.value.id in made for r in walk_body(fi.node.body)):
+                producers.add(fi.name)
         for fi in mod.functions.values():
             names = set()
             for node in walk_body(fi.node.body):
-                if isinstance(node, ast.Assign) and isinstance(node.value, ast.Call) and chain(node.value.func) and chain(node.value.func)[-1] == "Expression":
+                vals = [node.value] if isinstance(node, ast.Assign) else []
+                if vals and isinstance(vals[0], ast.IfExp):
+                    vals = [vals[0].body, vals[0].orelse]
+                if any(isinstance(v, ast.Call) and chain(v.func) and chain(v.func)[-1] in producers for v in vals):
                     names |= {t.id for t in node.targets if isinstance(t, ast.Name)}
             for node in walk_body(fi.node.body):
                 if isinstance(node, ast.Call) and chain(node.func) and chain(node.func)[-1] == "_make_array":
